@@ -179,6 +179,28 @@ Qed.
 (* ------------------------------------------------------------------ *)
 (* interpolate()                                                       *)
 (* ------------------------------------------------------------------ *)
+Section ListEq.
+  Context {F : Type}.
+  Variable leb : F -> F -> bool.
+  Hypothesis leb_total : forall x y, leb x y = true \/ leb y x = true.
+
+  Lemma list_eqb_refl (l : list F) : list_eqb leb l l = true.
+  Proof.
+    induction l as [|x l IH]; cbn; [reflexivity|]. rewrite IH. unfold feqb.
+    destruct (leb_total x x) as [H|H]; now rewrite H.
+  Qed.
+
+  Lemma list_eqb_eq :
+    (forall x y, leb x y = true -> leb y x = true -> x = y) ->
+    forall a b : list F, list_eqb leb a b = true -> a = b.
+  Proof.
+    intros anti. induction a as [|x a IH]; intros [|y b] H; cbn in H;
+      try discriminate; [reflexivity|].
+    apply andb_true_iff in H. destruct H as [H1 H2]. unfold feqb in H1.
+    apply andb_true_iff in H1. destruct H1. f_equal; [now apply anti|now apply IH].
+  Qed.
+End ListEq.
+
 Section InterpolateProofs.
   Context {F : Type} {O : FOps F}.
   Variable leb : F -> F -> bool.
@@ -188,8 +210,15 @@ Section InterpolateProofs.
   Variable spline1 : list F -> list F -> F -> F.
   Variable pchip1 : list F -> list F -> F -> F.
   Variable tiny : F.
+  Variable pass : list F -> list F -> bool.     (* the pass-through test *)
 
-  Notation interp := (interpolate leb logf spline1 pchip1 tiny).
+  Notation interp := (interpolate_with leb logf spline1 pchip1 tiny pass).
+
+  Definition spline_vals fmin fmax (fc : list F) (fdata : list (F * F)) (req : list F)
+    : list (F * F) :=
+    map (fun x => (spline1 (map logf fc) (map fst fdata) (logf x),
+                   spline1 (map logf fc) (map snd fdata) (logf x)))
+        (freq_interpolate leb fmin fmax req).
 
   (* shape of a successful call *)
   Lemma interpolate_shape fmin fmax ex inp req fdata out :
@@ -205,9 +234,10 @@ Section InterpolateProofs.
                     (freq_extrapolate leb fmin req) in
       out = fill me ve (fill mi vi (repeat czero (List.length req))) /\
       List.length vi = count_true mi /\
-      (List.length coarse = List.length req -> List.length fdata = count_true mi -> vi = fdata).
+      (pass coarse req = true -> List.length fdata = count_true mi -> vi = fdata) /\
+      (pass coarse req = false -> vi = spline_vals fmin fmax fc fdata req).
   Proof.
-    unfold interpolate. intros H.
+    unfold interpolate_with. intros H.
     match type of H with
     | match massign ?m ?v ?o with _ => _ end = _ =>
         destruct (massign m v o) as [out1|] eqn:E1; [|discriminate]
@@ -216,8 +246,10 @@ Section InterpolateProofs.
     apply massign_some in E1. destruct E1 as [vi [E1 [Hl Hv]]].
     exists d0, rest, vi. split; [reflexivity|]. cbn zeta.
     rewrite massign_exact in H.
-    - inversion H; subst. split; [reflexivity|]. split; [exact Hl|].
-      intros Hc Hf. apply Nat.eqb_eq in Hc. rewrite Hc in Hv. apply Hv. exact Hf.
+    - inversion H; subst. split; [reflexivity|]. split; [exact Hl|]. split.
+      + intros Hc Hf. rewrite Hc in Hv. apply Hv. exact Hf.
+      + intros Hc. rewrite Hc in Hv. apply Hv. unfold mask_interpolate, freq_interpolate.
+        now rewrite map_length, count_map_filter.
     - rewrite map_length. unfold mask_extrapolate, freq_extrapolate.
       now rewrite count_map_filter.
   Qed.
@@ -260,9 +292,92 @@ Section InterpolateProofs.
     - rewrite map_length. exact B.
   Qed.
 
-  (* pass-through: no coarse option, data for freq_compute *)
-  Lemma passthrough_lemma fmin fmax req fdata out i d :
-    interp fmin fmax None None req fdata = Some out ->
+  Lemma inband_not_extrap fmin fmax req i d :
+    i < List.length req -> in_band leb fmin fmax (nth i req d) = true ->
+    nth i (mask_extrapolate leb fmin req) false = false.
+  Proof.
+    intros Hi Hm. unfold mask_extrapolate. rewrite (nth_map_in _ req i d false Hi).
+    unfold in_band in Hm. apply andb_true_iff in Hm. destruct Hm as [Hm _].
+    unfold ltb. now rewrite Hm.
+  Qed.
+
+  (* the pass-through branch: the j-th in-band entry is fdata[j] *)
+  Lemma pass_branch_lemma fmin fmax ex inp req fdata out i d :
+    pass (freq_coarse ex inp req) req = true ->
+    interp fmin fmax ex inp req fdata = Some out ->
+    List.length fdata = List.length (freq_interpolate leb fmin fmax req) ->
+    i < List.length req -> in_band leb fmin fmax (nth i req d) = true ->
+    let j := rank (mask_interpolate leb fmin fmax req) i in
+    nth i out czero = nth j fdata czero /\
+    nth j (freq_interpolate leb fmin fmax req) d = nth i req d /\
+    j < List.length fdata.
+  Proof.
+    intros Hp H Hlen Hi Hm j. apply interpolate_shape in H.
+    destruct H as [d0 [rest [vi [Hf [-> [Hl [Hv _]]]]]]]. cbn zeta in *.
+    destruct (rank_filter (in_band leb fmin fmax) req i d Hi Hm) as [A B].
+    assert (Hcnt : List.length fdata = count_true (mask_interpolate leb fmin fmax req)).
+    { unfold mask_interpolate. rewrite count_map_filter. exact Hlen. }
+    rewrite (Hv Hp Hcnt) in *.
+    rewrite fill_false by (eapply inband_not_extrap; eassumption).
+    split; [|split].
+    - apply fill_true.
+      + rewrite repeat_length. unfold mask_interpolate. now rewrite map_length.
+      + unfold mask_interpolate. rewrite (nth_map_in _ req i d false Hi). exact Hm.
+      + fold j. unfold j, mask_interpolate. unfold freq_interpolate in Hlen. rewrite Hlen. exact B.
+    - exact A.
+    - unfold j, mask_interpolate. unfold freq_interpolate in Hlen. rewrite Hlen. exact B.
+  Qed.
+
+  (* the other branch: every in-band entry is the spline oracle at log(frequency) *)
+  Lemma spline_branch_lemma fmin fmax ex inp req fdata out i d :
+    pass (freq_coarse ex inp req) req = false ->
+    interp fmin fmax ex inp req fdata = Some out ->
+    i < List.length req -> in_band leb fmin fmax (nth i req d) = true ->
+    let fc := freq_compute leb fmin fmax (freq_coarse ex inp req) in
+    nth i out czero = (spline1 (map logf fc) (map fst fdata) (logf (nth i req d)),
+                       spline1 (map logf fc) (map snd fdata) (logf (nth i req d))).
+  Proof.
+    intros Hp H Hi Hm fc. apply interpolate_shape in H.
+    destruct H as [d0 [rest [vi [Hf [-> [Hl [_ Hv]]]]]]]. cbn zeta in *.
+    destruct (rank_filter (in_band leb fmin fmax) req i d Hi Hm) as [A B].
+    rewrite (Hv Hp) in *.
+    rewrite fill_false by (eapply inband_not_extrap; eassumption).
+    rewrite fill_true.
+    - unfold spline_vals, mask_interpolate, freq_interpolate.
+      etransitivity; [apply (nth_map_in _ _ _ d); exact B|]. cbv beta. now rewrite A.
+    - rewrite repeat_length. unfold mask_interpolate. now rewrite map_length.
+    - unfold mask_interpolate. rewrite (nth_map_in _ req i d false Hi). exact Hm.
+    - unfold spline_vals. rewrite map_length. exact B.
+  Qed.
+
+  (* pass-through with a wrong number of data: the masked assignment fails *)
+  Lemma pass_branch_error fmin fmax ex inp req fdata :
+    pass (freq_coarse ex inp req) req = true ->
+    List.length fdata <> List.length (freq_interpolate leb fmin fmax req) ->
+    List.length fdata <> 1 ->
+    interp fmin fmax ex inp req fdata = None.
+  Proof.
+    intros Hp Hne H1. unfold interpolate_with. rewrite Hp.
+    rewrite massign_mismatch; [reflexivity| |exact H1].
+    unfold mask_interpolate. rewrite count_map_filter. exact Hne.
+  Qed.
+End InterpolateProofs.
+
+(* the two instances *)
+Section Instances.
+  Context {F : Type} {O : FOps F}.
+  Variable leb : F -> F -> bool.
+  Hypothesis leb_total : forall x y, leb x y = true \/ leb y x = true.
+  Variable logf : F -> F.
+  Variable spline1 : list F -> list F -> F -> F.
+  Variable pchip1 : list F -> list F -> F -> F.
+  Variable tiny : F.
+
+  (* FIXED code, no coarse option (or any option yielding the required
+     frequencies): data pass through unchanged to the coinciding frequency *)
+  Lemma passthrough_lemma fmin fmax ex inp req fdata out i d :
+    freq_coarse ex inp req = req ->
+    interpolate leb logf spline1 pchip1 tiny fmin fmax ex inp req fdata = Some out ->
     List.length fdata = List.length (freq_compute leb fmin fmax req) ->
     i < List.length req -> in_band leb fmin fmax (nth i req d) = true ->
     let j := rank (mask_interpolate leb fmin fmax req) i in
@@ -270,76 +385,62 @@ Section InterpolateProofs.
     nth j (freq_compute leb fmin fmax req) d = nth i req d /\
     j < List.length fdata.
   Proof.
-    intros H Hlen Hi Hm j. apply interpolate_shape in H.
-    destruct H as [d0 [rest [vi [Hf [-> [Hl Hv]]]]]]. cbn zeta in *.
-    destruct (rank_filter (in_band leb fmin fmax) req i d Hi Hm) as [A B].
-    assert (Hcnt : List.length fdata = count_true (mask_interpolate leb fmin fmax req)).
-    { unfold mask_interpolate. rewrite count_map_filter. exact Hlen. }
-    rewrite (Hv eq_refl Hcnt) in *.
-    assert (Hne : nth i (mask_extrapolate leb fmin req) false = false).
-    { unfold mask_extrapolate. rewrite (nth_map_in _ req i d false Hi).
-      unfold in_band in Hm. apply andb_true_iff in Hm. destruct Hm as [Hm _].
-      unfold ltb. now rewrite Hm. }
-    rewrite fill_false by exact Hne.
-    split; [|split].
-    - apply fill_true.
-      + rewrite repeat_length. unfold mask_interpolate. now rewrite map_length.
-      + unfold mask_interpolate. rewrite (nth_map_in _ req i d false Hi). exact Hm.
-      + fold j. unfold j, mask_interpolate. rewrite Hlen. exact B.
-    - exact A.
-    - unfold j, mask_interpolate. rewrite Hlen. exact B.
+    intros Hc H Hlen Hi Hm.
+    apply (pass_branch_lemma leb logf spline1 pchip1 tiny (list_eqb leb)
+             fmin fmax ex inp req fdata out i d); auto.
+    rewrite Hc. now apply list_eqb_refl.
   Qed.
 
-  (* the pass-through branch is chosen by LENGTH only: with input_freq of the
-     length of freq_required but another in-band count, the masked assignment
-     fails (ValueError) ... *)
-  Lemma same_length_input_error fmin fmax inp req fdata :
+  (* FIXED code: frequencies that differ from the required ones are never
+     passed through, whatever their number *)
+  Lemma differing_coarse_lemma fmin fmax ex inp req fdata out i d :
+    list_eqb leb (freq_coarse ex inp req) req = false ->
+    interpolate leb logf spline1 pchip1 tiny fmin fmax ex inp req fdata = Some out ->
+    i < List.length req -> in_band leb fmin fmax (nth i req d) = true ->
+    let fc := freq_compute leb fmin fmax (freq_coarse ex inp req) in
+    nth i out czero = (spline1 (map logf fc) (map fst fdata) (logf (nth i req d)),
+                       spline1 (map logf fc) (map snd fdata) (logf (nth i req d))).
+  Proof.
+    intros Hp H Hi Hm.
+    exact (spline_branch_lemma leb logf spline1 pchip1 tiny (list_eqb leb)
+             fmin fmax ex inp req fdata out i d Hp H Hi Hm).
+  Qed.
+
+  (* UNFIXED variant: same length is enough for pass-through *)
+  Lemma unfixed_same_length_error fmin fmax inp req fdata :
     List.length inp = List.length req ->
-    List.length fdata = List.length (freq_compute leb fmin fmax inp) ->
     List.length fdata <> List.length (freq_interpolate leb fmin fmax req) ->
     List.length fdata <> 1 ->
-    interp fmin fmax None (Some inp) req fdata = None.
+    interpolate_unfixed leb logf spline1 pchip1 tiny fmin fmax None (Some inp) req fdata = None.
   Proof.
-    intros Hl Hf Hne H1. unfold interpolate. cbn [freq_coarse].
-    rewrite Hl, Nat.eqb_refl. rewrite massign_mismatch; [reflexivity| |exact H1].
-    unfold mask_interpolate. rewrite count_map_filter. exact Hne.
+    intros Hl Hne H1.
+    apply (pass_branch_error leb logf spline1 pchip1 tiny (@same_length F)); auto.
+    cbn [freq_coarse]. unfold same_length. rewrite Hl. apply Nat.eqb_refl.
   Qed.
 
-  (* ... and when the counts happen to agree, data computed at input_freq are
-     placed, unchanged, at DIFFERENT required frequencies *)
-  Lemma same_length_input_misplaced fmin fmax inp req fdata out i d :
+  Lemma unfixed_same_length_misplaced fmin fmax inp req fdata out i d :
     List.length inp = List.length req ->
-    interp fmin fmax None (Some inp) req fdata = Some out ->
+    interpolate_unfixed leb logf spline1 pchip1 tiny fmin fmax None (Some inp) req fdata
+      = Some out ->
     List.length fdata = List.length (freq_interpolate leb fmin fmax req) ->
     i < List.length req -> in_band leb fmin fmax (nth i req d) = true ->
     nth i out czero = nth (rank (mask_interpolate leb fmin fmax req) i) fdata czero.
   Proof.
-    intros Hl H Hlen Hi Hm. apply interpolate_shape in H.
-    destruct H as [d0 [rest [vi [Hf [-> [Hlv Hv]]]]]]. cbn zeta in *.
-    destruct (rank_filter (in_band leb fmin fmax) req i d Hi Hm) as [A B].
-    assert (Hcnt : List.length fdata = count_true (mask_interpolate leb fmin fmax req)).
-    { unfold mask_interpolate. rewrite count_map_filter. exact Hlen. }
-    cbn [freq_coarse] in Hv. rewrite (Hv Hl Hcnt) in *.
-    assert (Hne : nth i (mask_extrapolate leb fmin req) false = false).
-    { unfold mask_extrapolate. rewrite (nth_map_in _ req i d false Hi).
-      unfold in_band in Hm. apply andb_true_iff in Hm. destruct Hm as [Hm _].
-      unfold ltb. now rewrite Hm. }
-    rewrite fill_false by exact Hne.
-    apply fill_true.
-    - rewrite repeat_length. unfold mask_interpolate. now rewrite map_length.
-    - unfold mask_interpolate. rewrite (nth_map_in _ req i d false Hi). exact Hm.
-    - unfold mask_interpolate. unfold freq_interpolate in Hlen. rewrite Hlen. exact B.
+    intros Hl H Hlen Hi Hm.
+    apply (pass_branch_lemma leb logf spline1 pchip1 tiny (@same_length F)
+             fmin fmax None (Some inp) req fdata out i d); auto.
+    cbn [freq_coarse]. unfold same_length. rewrite Hl. apply Nat.eqb_refl.
   Qed.
 
   Context {TD : Type}.
   Variable tem : list (F * F) -> list F -> TD.
 
   Lemma freq2time_lemma fmin fmax ex inp req fdata filled :
-    interp fmin fmax ex inp req fdata = Some filled ->
+    interpolate leb logf spline1 pchip1 tiny fmin fmax ex inp req fdata = Some filled ->
     freq2time leb logf spline1 pchip1 tiny tem fmin fmax ex inp req fdata
     = Some (tem filled req).
   Proof. intros H. unfold freq2time. now rewrite H. Qed.
-End InterpolateProofs.
+End Instances.
 
 (* ------------------------------------------------------------------ *)
 (* PCHIP on the first interval                                         *)
